@@ -20,6 +20,7 @@ func checkC07(p *Prog, r *Report) {
 	mineralBooks(p, r, "C07.R8")
 	nmoveSweeps(p, r, "C07.R9")
 	uptakeReset(p, r, "C07.R10")
+	c07AppliedDissolved(p, r)
 	// "finite": the partial operations of the nitrogen routines stay inside their domains (shared machinery with C06.R6)
 	domainRule(p, r, "C07.R7", "the nitrogen routines (denitrification, mineralisation, transport, daily bookkeeping)", []string{"hermes.Denitr", "hermes.Denitmo", "hermes.mineral", "hermes.nmove", "hermes.Nitro"}, 60)
 }
@@ -454,5 +455,67 @@ func c07Writers(p *Prog, r *Report) {
 			reason, ok := poolWriters[f][w.Key]
 			r.Ob("writer:"+f+":"+strings.TrimPrefix(w.Key, "hermes."), p.Pos(w.Decl.Pos()), ok, orStr(reason, "not a confirmed writer of "+f+": pool plus counter would change without an accounted input"))
 		}
+	}
+}
+
+// C07.R11 — "dissolved fertiliser never exceeds fertiliser applied" across
+// resets: the dissolution routine keeps dissolved ≤ applied day by day (R1,
+// R8), but the applied counters are also reset (re-initialisation on a
+// measurement date).  A reset of an applied counter without the reset of its
+// dissolved counter leaves dissolved > applied = 0, and the next days'
+// dissolution increment (proportional to applied − dissolved) is negative.
+func c07AppliedDissolved(p *Prog, r *Report) {
+	r.Rule("C07.R11", "applied and dissolved fertiliser counters are reset together: every store to an applied counter (DSUMM, NH4Sum) that is not an increment of its own previous value is a reset to 0 and is accompanied, in the same function under the same conditions, by a reset to 0 of its dissolved counter (UMS, NH4UMS)", 2)
+	pairs := [][2]string{{"DSUMM", "UMS"}, {"NH4Sum", "NH4UMS"}}
+	n := 0
+	for _, pr := range pairs {
+		A, D := "GlobalVarsMain."+pr[0], "GlobalVarsMain."+pr[1]
+		for _, w := range p.Fields().Writers(FieldRef{"GlobalVarsMain", pr[0]}) {
+			if strings.HasPrefix(w.Key, "hermes.NewDefault") || w.Key == "hermes.NewGlobalVarsMain" {
+				continue
+			}
+			wx := walked(p, w.Key)
+			if wx == nil {
+				r.Ob("pair:"+pr[0]+":"+short(w.Key), p.Pos(w.Decl.Pos()), false, "writer of the applied counter not analysable")
+				continue
+			}
+			k := 0
+			for _, e := range wx.Events {
+				if e.Kind != "assign" || e.Root != A {
+					continue
+				}
+				d := e.Val.Sub(e.Old)
+				if !d.MentionsRoot(A) && !e.Val.Sub(d).IsZero() && e.Val.Sub(d).Equal(e.Old) && !d.IsZero() {
+					// Val = Old + d with d free of the counter: an increment
+					if !stripVersions(e.Val).IsZero() {
+						continue
+					}
+				}
+				k++
+				n++
+				ok := stripVersions(e.Val).IsZero()
+				det := fmt.Sprintf("%s = %s", pr[0], clip(stripVersions(e.Val).String(), 60))
+				if ok {
+					found := false
+					for _, e2 := range wx.Events {
+						if e2.Kind == "assign" && e2.Root == D && stripVersions(e2.Val).IsZero() && guardKeys(e2.Guards) == guardKeys(e.Guards) {
+							found = true
+						}
+					}
+					ok = found
+					det += fmt.Sprintf("; %s reset under the same conditions: %v", pr[1], found)
+				} else {
+					det += " — neither an increment nor a reset"
+				}
+				key := fmt.Sprintf("pair:%s:%s", pr[0], short(w.Key))
+				if k > 1 {
+					key += fmt.Sprintf("#%d", k)
+				}
+				r.Ob(key, p.Pos(e.Pos), ok, det)
+			}
+		}
+	}
+	if n == 0 {
+		r.Ob("pair", "-", false, "no reset of an applied-fertiliser counter found (the re-initialisation on a measurement date was confirmed by hand)")
 	}
 }
